@@ -265,9 +265,47 @@ def punctuation_scenarios(ctx):
                 ctx.count('punctuation_scenario_cases')
 
 
+# symlinked directories two and three levels below the point where a recursive segment starts, and patterns that mix `***` and `**`
+DEEP_LINK_TREE = [('d', 'd', None), ('d/x', 'd', None), ('d/x/ld', 'l', '../../t'), ('d/x/f', 'f', None), ('t', 'd', None), ('t/f', 'f', None),
+                  ('t/sub', 'd', None), ('t/sub/f', 'f', None), ('t/sub/g', 'f', None), ('e', 'd', None), ('e/x', 'd', None), ('e/x/y', 'd', None),
+                  ('e/x/y/ld2', 'l', '../../../t'), ('e/x/y/f', 'f', None), ('top', 'l', 't/sub')]
+
+
+def deep_link_scenarios(ctx):
+    from .c06 import FIXED_TREES
+    GS, GL_ = (('gstar',),), (('gstarlong',),)
+    lit = lambda x: tuple(('lit', c) for c in x)  # noqa: E731
+    ST = (('star',),)
+    shapes = [[GL_], [GL_, lit('f')], [lit('d'), GL_, lit('f')], [GL_, lit('sub'), ST], [GS, lit('f')], [GS], [lit('d'), GS, lit('f')],
+              [GL_, lit('x'), GS, lit('f')], [lit('e'), GL_, lit('f')], [GL_, lit('x'), GL_, lit('f')], [GS, lit('x'), GL_, lit('f')],
+              [GL_, ST, GS, lit('g')], [lit('e'), GL_, lit('sub'), GS], [GL_, lit('ld'), GS], [GS, lit('ld'), ST], [ST, GL_, lit('g')],
+              [GL_, lit('y'), GS, lit('f')], [lit('e'), GS, lit('ld2'), GL_, lit('g')], [lit('top'), GS], [GL_, lit('m'), GS, lit('z')],
+              [GL_, lit('lnk'), GS, lit('z')], [GS, lit('m'), GL_, lit('z')]]
+    fsets = [('GLOBSTARLONG',), ('GLOBSTARLONG', 'FOLLOW'), ('GLOBSTAR',), ('GLOBSTAR', 'FOLLOW'), ('GLOBSTARLONG', 'DOTGLOB', 'NODIR')]
+    idx = 0
+    for ti, spec in enumerate([DEEP_LINK_TREE] + list(FIXED_TREES)):
+        todo = []
+        for segs in shapes:
+            for fn in fsets:
+                for mode in ('root_dir', 'dir_fd'):
+                    idx += 1
+                    if ctx.mine(idx):
+                        todo.append((segs, fn, mode))
+        if not todo:
+            continue
+        with T.Tree(spec, 'c04d-') as tr:
+            for segs, fn, mode in todo:
+                toks = gen.join_segments(segs, None, lead=False, trail=False)
+                text = gen.ser(toks)
+                with ctx.case(timeout=20, label=('deep-link', ti, text, fn, mode)):
+                    check_pattern(ctx, tr, ctx.rng_for('dl', ti, text, fn), 0, 0, forced=([toks], text, ['EXTGLOB'] + list(fn), text, {}, mode))
+                    ctx.count('deep_link_scenario_cases')
+
+
 def run(ctx):
     quick = ctx.quick
     punctuation_scenarios(ctx)
+    deep_link_scenarios(ctx)
     k = 0
     limit = 120 if quick else 10 ** 9
     while k < limit and not ctx.out_of_time():
